@@ -2,10 +2,13 @@
 
 Header   `fallback strategy=<s> [handle=<mask>] val=<n>`
 Requests `arrive <c> tag=<t> inner=<lat>:<out>[,<lat>:<out>]` (second step = the backup call)
+Handles  `manual dropsvc`: the caller drops the service, its clones and the layer (calls in flight
+         keep running; later arrivals are answered `noop`)
 
-The grid strategy x predicate x inner outcome x backup outcome (x latency pattern) is small and is
-enumerated completely by the first GRID_SIZE calls of `gen` in every run, in both tiers; the
-remaining cases are random schedules (polls/drops/advances in every phase, random payloads).
+The grid strategy x predicate x inner outcome x backup outcome (x latency pattern x point at which
+the service handles are dropped) is small and is enumerated completely by the first GRID_SIZE calls
+of `gen` in every run, in both tiers; the remaining cases are random schedules (polls/drops/advances
+in every phase, the handles dropped at a random point of every second one, random payloads).
 """
 from gen.util import kvs, tparse
 
@@ -15,14 +18,19 @@ HANDLES = [None, 2, 6, 0]
 INNER_OUT = ["ok", "err1", "err2", "panic", "never"]
 BACKUP_OUT = ["ok", "err3", "err1", "panic", "never"]
 LATS = [(0, 0), (0, 3), (5, 0), (5, 3)]
+# where `manual dropsvc` goes: never / before the first poll / after the first polls (inner call pending
+# when it has a latency, else the backup call, else everything finished) / after the first latency has
+# elapsed (backup call pending under 5+3) / after everything has completed
+DROPSVC = [None, 0, 1, 2, 3]
 
 
 def _grid():
     g = []
-    for s in STRATEGIES:
-        for h in HANDLES:
-            for (li, lb) in LATS:
-                g.append((s, h, li, lb))
+    for dp in DROPSVC:
+        for s in STRATEGIES:
+            for h in HANDLES:
+                for (li, lb) in LATS:
+                    g.append((s, h, li, lb, dp))
     return g
 
 
@@ -40,8 +48,17 @@ def header(s, h, val):
     return "fallback strategy=%s%s val=%d order=%d" % (s, "" if h is None else " handle=%d" % h, val, _order[0])
 
 
+def _dropsvc(rng, ops, c):
+    """the handles go; a request attempted afterwards does not exist (noop, also when polled/dropped)"""
+    ops.append("manual dropsvc")
+    if rng.random() < 0.5:
+        ops.append("arrive %d tag=%d inner=0:%s,0:ok" % (c, rng.randint(0, 99), rng.choice(["ok", "err1"])))
+        if rng.random() < 0.5:
+            ops.append("%s %d" % (rng.choice(["poll", "drop"]), c))
+
+
 def grid_case(rng, point):
-    s, h, li, lb = point
+    s, h, li, lb, dp = point
     val = rng.choice([700, 7000, 0])
     ops = []
     ids = []
@@ -54,8 +71,13 @@ def grid_case(rng, point):
     order = ids[:]
     if rng.random() < 0.5:
         rng.shuffle(order)
+    if dp == 0:
+        _dropsvc(rng, ops, c + 1)
     for c in order:
         ops.append("poll %d" % c)
+    if dp == 1:
+        _dropsvc(rng, ops, len(ids) + 1)
+    first = True
     for d in ([li] if li else []) + ([lb] if lb else []):
         if rng.random() < 0.5 and d > 1:
             ops.append("adv %d" % (d - 1))
@@ -64,7 +86,12 @@ def grid_case(rng, point):
         else:
             ops.append("adv %d" % d)
         ops.append("settle")
+        if dp == 2 and first:
+            _dropsvc(rng, ops, len(ids) + 1)
+        first = False
     ops.append("settle")
+    if dp == 3 or (dp == 2 and first):
+        _dropsvc(rng, ops, len(ids) + 1)
     ops.append("dropall")
     return {"header": header(s, h, val), "ops": ops}
 
@@ -90,9 +117,22 @@ def random_case(rng):
     ops = []
     marks = []
     now = 0
-    for _ in range(rng.randint(6, 40)):
+    nsteps = rng.randint(6, 40)
+    # the step at which the service handles are dropped (every second case), anywhere in the schedule
+    gone_at = rng.randint(1, nsteps) if rng.random() < 0.5 else None
+    gone = False
+    for step in range(nsteps):
+        if step == gone_at:
+            ops.append("manual dropsvc")
+            gone = True
         r = rng.random()
-        if pending and (r < 0.3 or not arrived):
+        if gone and pending and r < 0.3:
+            # a request attempted after the drop does not exist: noop, and so is every poll/drop of it
+            c = pending.pop(0)
+            ops.append("arrive %d tag=%d inner=0:%s" % (c, rng.randint(0, 99), pick_out(rng)))
+            if rng.random() < 0.3:
+                ops.append("%s %d" % (rng.choice(["poll", "drop"]), c))
+        elif pending and not gone and (r < 0.3 or not arrived):
             c = pending.pop(0)
             li = rng.choice([0, 0, 1, 5, rng.randint(0, 20)])
             lb = rng.choice([0, 0, 1, 3, rng.randint(0, 20)])
@@ -122,6 +162,8 @@ def random_case(rng):
                 marks.append(now + 3)
         else:
             ops.append("settle")
+    if gone_at == nsteps:
+        ops.append("manual dropsvc")
     if rng.random() < 0.7:
         ops.append("adv %d" % rng.choice([0, 1, 20, 45]))
         ops.append("settle")
@@ -287,10 +329,60 @@ def mon_c17(case, lines, meta):
     return None
 
 
+def _dropsvc_tags(case, lines, meta):
+    """in which phase of which request the service handles were dropped (first `manual dropsvc`)"""
+    at = [i for (i, m) in (meta or []) if m.startswith("#dropsvc") and i >= 0]
+    if not at:
+        return []
+    at = at[0]
+    tags = ["dropsvc"]
+    first = {}       # caller -> {event kind: index of its first occurrence}
+    for i, l in enumerate(lines):
+        _, w = tparse(l)
+        if w and w[0] in ("inner_call", "inner_done", "inner_drop", "binner_call", "binner_done", "binner_drop", "result"):
+            first.setdefault(int(w[1]), {}).setdefault(w[0], i)
+        if i >= at and w:
+            if w[0] == "inner_done" and w[3].startswith("err"):
+                tags.append("inner-err-after-dropsvc")
+            elif w[0] == "predicate":
+                tags.append("predicate-after-dropsvc")
+            elif w[0] == "strategy":
+                tags.append("strategy-after-dropsvc")
+            elif w[0] == "binner_call":
+                tags.append("backup-call-after-dropsvc")
+    for c, f in first.items():
+        def before(k):
+            return k in f and f[k] < at
+        if not before("inner_call"):
+            tags.append("dropsvc-before-first-poll")
+        elif before("result"):
+            tags.append("dropsvc-after-completion")
+        elif before("binner_call") and not before("binner_done") and not before("binner_drop"):
+            tags.append("dropsvc-backup-pending")
+        elif not before("inner_done") and not before("inner_drop"):
+            tags.append("dropsvc-inner-pending")
+    seen = set()
+    gone = False
+    for o in case["ops"]:
+        w = o.split()
+        if w[:2] == ["manual", "dropsvc"]:
+            gone = True
+        elif len(w) >= 2 and w[0] == "arrive":
+            if gone and w[1] not in seen:
+                tags.append("arrive-after-dropsvc")
+            seen.add(w[1])
+    return tags
+
+
+def canon(lines):
+    """`noop` answers carry a timestamp or not depending on who gives them (world.rs / the adapter / the driver)"""
+    return ["noop" if l.split()[-1:] == ["noop"] and len(l.split()) <= 2 else l for l in lines]
+
+
 def transitions(case, lines, meta=None):
     cfg = kvs(case["header"])
     strat = cfg.get("strategy", "value")
-    tags = []
+    tags = _dropsvc_tags(case, lines, meta)
     done_err = set()
     for l in lines:
         _, w = tparse(l)
@@ -336,7 +428,10 @@ ALL = (["inner-ok", "inner-err", "inner-panic", "handled-no-predicate", "predica
         "strategy-value_fn", "strategy-from_error", "strategy-from_request_error", "strategy-exception",
         "backup-call", "backup-ok", "backup-err", "backup-panic", "dropped-inner", "dropped-backup",
         "result-pass-through", "result-inner-error", "result-fallback-failed", "result-panic"]
-       + ["result-replaced-" + s for s in STRATEGIES if s != "exception"])
+       + ["result-replaced-" + s for s in STRATEGIES if s != "exception"]
+       + ["dropsvc", "dropsvc-before-first-poll", "dropsvc-inner-pending", "dropsvc-backup-pending", "dropsvc-after-completion",
+          "inner-err-after-dropsvc", "predicate-after-dropsvc", "strategy-after-dropsvc", "backup-call-after-dropsvc",
+          "arrive-after-dropsvc"])
 
 LEVEL_NOTE = ("Trusted: Lean kernel; the reading of lib.rs:274-512 as TR.Model.Fallback.afterInner/afterBackup and of the async block as the "
               "three-phase machine (validated by the sampled correspondence check, which enumerates the complete strategy x predicate x inner "
@@ -350,16 +445,19 @@ SPECS = {
         "module": "TR.Props.C17",
         "gen": gen,
         "monitors": [("c17-reference-function", mon_c17)],
+        "canon": canon,
         "transitions": transitions,
         "nontrivial": nontrivial,
         "all_transitions": ALL,
-        "model_modules": ["TR.Model.Fallback", "TR.Lemmas.Fallback"],
-        "lean_files": ["TR.Model.Fallback", "TR.Lemmas.Fallback"],
+        "model_modules": ["TR.Model.Fallback", "TR.Lemmas.Fallback", "TR.Lemmas.FallbackDrop"],
+        "lean_files": ["TR.Model.Fallback", "TR.Lemmas.Fallback", "TR.Lemmas.FallbackDrop"],
         "sizes": (GRID_SIZE + 404, 20000),
         "rule": "the first %d cases of every run enumerate the grid 6 strategies x {no predicate, accepts kind 1, accepts kinds 1-2, rejects all} "
                 "x inner {ok, err1, err2, panic, never} x backup {ok, err3, err1, panic, never} x latency pattern {0,5}x{0,3} ms (25 tagged "
-                "requests per case); the rest are seeded random schedules (arrive/poll/drop/adv/settle, 1..8 requests, random tags, kinds, masks, "
-                "latencies, drops in every phase); distinct = distinct implementation log; non-trivial = an error was replaced, returned "
+                "requests per case) x service handles (service, clones, layer) {kept, dropped before the first poll, after the first polls, "
+                "after the first latency, after completion}; the rest are seeded random schedules (arrive/poll/drop/adv/settle, 1..8 requests, "
+                "random tags, kinds, masks, latencies, drops in every phase, in every second one the service handles dropped at a random point "
+                "and requests attempted afterwards); distinct = distinct implementation log; non-trivial = an error was replaced, returned "
                 "unchanged, or the backup failed / was cancelled" % GRID_SIZE,
         "trusted": ["transcription of Fallback::call (lib.rs:274-512) in TR.Model.Fallback, sampled by the correspondence check (complete grid)",
                     "harness: manual poller, scripted inner/backup services, test functions handed to the builder", "python diff/monitor"],
@@ -372,7 +470,10 @@ SPECS = {
                       "predicate accepts (always without one), returns unhandled errors unchanged, and yields exactly the strategy's value for that "
                       "request and error for each of the six strategies (backup failure -> FallbackFailed with the backup's error); and for every "
                       "operation sequence (all poll/drop/advance orders) each request's events in the log of the poll-level machine are exactly a "
-                      "prefix stage of that function's canonical trace. Model tied to the real FallbackLayer by line-for-line agreement on the "
+                      "prefix stage of that function's canonical trace; and dropping every handle on the service (service, clones, layer) "
+                      "at any point of any run changes nothing but the possibility of making further calls — the log, hence every outcome, is "
+                      "independent of when or whether the handles are dropped (dropsvc_only_stops_new_calls, log_independent_of_dropsvc_time). "
+                      "Model tied to the real FallbackLayer by line-for-line agreement on the "
                       "complete grid plus random schedules.",
         "level_note": LEVEL_NOTE,
     },
